@@ -441,8 +441,8 @@ fn handle_diff<T: Clone>(
 
                 // There is space for this new item.
                 res.push(VectorDiff::Insert {
-                    // Subtract 1 because `insert` adds a value compared to `previous_length`.
-                    index: (index - index_of_limit).saturating_sub(1),
+                    // Subtract 1 if a value has been popped from the front to make room.
+                    index: index - index_of_limit - usize::from(is_full),
                     value,
                 });
             } else {
